@@ -242,6 +242,7 @@ static bool at_vacuum_front(const Ctx &C, double xi) {
 
 struct SampleOut {
   St s;
+  bool physical; // finite, non-negative, no abort
   int matched; // region matched, REG_NONE if none
   double tr, tu, tp;
 };
@@ -251,6 +252,7 @@ static SampleOut check_sample(Ctx &C, double xi, const char *what) {
   Acc &A = *C.A;
   SampleOut out;
   out.matched = REG_NONE;
+  out.physical = false;
   out.tr = out.tu = out.tp = 0.;
   out.s = run_solver(*C.S, C.P, xi);
   const St &s = out.s;
@@ -278,6 +280,7 @@ static SampleOut check_sample(Ctx &C, double xi, const char *what) {
                    prob_json(C.P, xi));
     return out;
   }
+  out.physical = true;
   // candidate regions
   int cand[8], nc = 0;
   cand[nc++] = reg;
@@ -591,10 +594,13 @@ static void check_problem(const ExactRiemannSolver &S, const Prob &P, Result &R,
   double pstar_solver = NAN, ustar_solver = NAN;
   for (size_t i = 0; i < xis.size(); ++i) {
     outs[i] = check_sample(C, xis[i].xi, xis[i].what);
+    // the relations use the solver output only: they are evaluated at every
+    // sample well inside a region, whether or not the state matched
+    if (xis[i].inside >= 0 && outs[i].physical)
+      check_relations(C, xis[i].inside, xis[i].xi, outs[i].s);
     if (outs[i].matched == REG_NONE)
       continue;
     if (xis[i].inside >= 0 && outs[i].matched == xis[i].inside) {
-      check_relations(C, xis[i].inside, xis[i].xi, outs[i].s);
       if (xis[i].inside == REG_LSTAR) {
         pstar_solver = outs[i].s.p;
         ustar_solver = outs[i].s.u;
